@@ -234,3 +234,22 @@ func VerifC05Slots() {
 	}
 	verifAssert(generateProducers(ctx, tick, addrs[:2]) == nil, "a producer list of the wrong length yields no schedule")
 }
+
+// VerifC05ScheduleRepeatable: computing the schedule of one tick twice from the same delegations gives the same
+// ordered list, whatever order Go's map iteration happens to take inside the algorithm (a group with two random
+// slots, NodeCount 4 / RandCount 2, so that two unselected top pillars get their "second chance" together).
+func VerifC05ScheduleRepeatable() {
+	c05Memo = nil
+	verifMapOrderNondet(true)
+	n := verifNondetLen("active pillars", 4, 6)
+	in := c05Input(n, false)
+	ea := NewElectionAlgorithm(c05Group(4, 2))
+	hh := types.HashHeight{Height: verifNondetU64("proof height")}
+	out1 := ea.SelectProducers(NewAlgorithmContext(append([]*types.PillarDelegation{}, in...), &hh))
+	out2 := ea.SelectProducers(NewAlgorithmContext(append([]*types.PillarDelegation{}, in...), &hh))
+	verifAssert(len(out1) == 4 && len(out2) == 4, "exactly NodeCount slots")
+	verifReach("compared", true)
+	for i := range out1 {
+		verifAssert(out1[i] == out2[i], "the same pillar in every slot on every computation")
+	}
+}
